@@ -204,6 +204,7 @@ pub fn run_scenarios(scs: &[Value]) -> Vec<String> {
         // input corners (see model.rs): timestamps shifted by an offset, ids in the ULID format
         TSOFF.store(sc["tsoff"].as_str().and_then(|x| x.parse::<u64>().ok()).or(sc["tsoff"].as_u64()).unwrap_or(0), std::sync::atomic::Ordering::Relaxed);
         ULID_IDS.store(sc["ulid"].as_bool().unwrap_or(false), std::sync::atomic::Ordering::Relaxed);
+        TWIN_IDS.store(sc["twins"].as_bool().unwrap_or(false), std::sync::atomic::Ordering::Relaxed);
         if sc.get("via").is_some() {
             out.push(build_line(sc, ix));
             continue;
